@@ -3,11 +3,13 @@
 
     > parse <tokens>   →  < lex 0|1, then < ok <ast> + < wf 0|1 | < err
                            (`tokOk` on every token, model `parse`, and whether the tree satisfies `wf`)
+    > lexstr <hex>     →  < str <length of the STRING token> | < err     (SH.Model.PromLex.lexStringTok on the bytes)
     > print <ast>      →  < toks <tokens>             (model `printExpr .fixed`, numbers/durations/strings reduced to
                                                        raw text / value exactly as the harness reduces the lexed real output)
 -/
 import Driver.Common
 import SH.Model.PromSyntax
+import SH.Model.PromLex
 
 open SH SH.PromSyntax
 
@@ -218,6 +220,13 @@ def step (_ : Unit) (toks : List String) : Unit × List String :=
       match parse ts with
       | some e => ((), [lex, "ok " ++ showExpr e, "wf " ++ b01 (wf e)])
       | none => ((), [lex, "err"])
+  | ["lexstr", hx] =>
+    -- the STRING token at the head of the bytes: model of lexString / lexEscape / lexRawString
+    match parseHex? hx with
+    | none => ((), ["bad-op"])
+    | some bs => match SH.PromLex.lexStringTok (bs.map (·.toNat)) with
+      | some (tok, _) => ((), ["str " ++ toString tok.length])
+      | none => ((), ["err"])
   | "print" :: l =>
     match readExpr l with
     | some (e, []) => ((), ["toks " ++ showToks (printExpr .fixed e)])
